@@ -41,6 +41,11 @@ use super::config::SslConfig;
 use super::template;
 
 pub async fn startup(config: &ServerConfig<SslConfig>) -> anyhow::Result<()> {
+    // users are told apart by the identity header, which only some ciphers have: with any other cipher the list
+    // would be ignored and whoever holds the server key served
+    if !config.user.is_empty() && !config.cipher.support_eih() {
+        bail!("cipher {} cannot serve a user list", config.cipher);
+    }
     let res = match config.cipher {
         CipherKind::Aes128Gcm | CipherKind::Aead2022Blake3Aes128Gcm => {
             let mut user_manager: ServerUserManager<16> = ServerUserManager::new();
